@@ -33,9 +33,14 @@ var pidRe = regexp.MustCompile(` \(pid [0-9]+\)`)
 var uniqTextRe = regexp.MustCompile(`u[0-9a-f]{10}\b`)
 var scratchRe = regexp.MustCompile(`/dev/shm/ps[bx]f?-[0-9A-Za-z-]+`)
 
-// normText removes run-specific names from a message.
+var timeTextRe = regexp.MustCompile(`\d{4}-\d\d-\d\d[ T]\d\d:\d\d:\d\d(\.\d+)?Z?`)
+var parenNumRe = regexp.MustCompile(`\(\d+\)`)
+
+// normText removes run-specific names (scratch directory, attempt ids, times,
+// process ids) from a message.
 func normText(s string) string {
-	return scratchRe.ReplaceAllString(uniqTextRe.ReplaceAllString(s, "u<uniq>"), "<scratch>")
+	s = scratchRe.ReplaceAllString(uniqTextRe.ReplaceAllString(s, "u<uniq>"), "<scratch>")
+	return parenNumRe.ReplaceAllString(timeTextRe.ReplaceAllString(s, "<time>"), "(<pid>)")
 }
 
 func tierBDeadline(r *ev.Run, quick, thorough time.Duration) time.Time {
@@ -165,6 +170,11 @@ func TierBDataflow(r *ev.Run, prop string) {
 		os.Exit(2)
 	}
 	deadline := tierBDeadline(r, 45*time.Second, 12*time.Minute)
+	if prop == "C03" {
+		if k, _, _ := ev.WorkerIndex(); k == 0 {
+			clusterOnce(r)
+		}
+	}
 	cases := tierBPrograms(r.Thorough())
 	order := r.Rotate(len(cases))
 	for wi, idx := range order {
@@ -311,6 +321,54 @@ func pyProgram(c DfCase, thorough bool) bool {
 		}
 	}
 	return pyNames[c.Params.String()]
+}
+
+// clusterOnce: the cluster code path (fake_remote) with a job that runs for
+// nine seconds while the scheduler's queue listing is cut short twice (header
+// only, non-zero exit) and --autoretry=1: no job failed, so every job runs
+// exactly once.
+func clusterOnce(r *ev.Run) {
+	p := progen.Dataflow(progen.DataflowParams{Kind: "int", Src: "gen", Size: 2, Cons: "add"})
+	ref, err := progen.Interpret(p)
+	if p == nil || err != nil {
+		return
+	}
+	slowJob := "ID." + Psid + ".TOP.GEN.fork0.chnk0.main"
+	run := func() ([]string, *BResult) {
+		br := RunB(p, BOptions{JobMode: "fake_remote", FlakyQueue: true, AutoRetry: 1, Slow: map[string]int{slowJob: 9000}, Timeout: 150 * time.Second})
+		if br.Err != "" {
+			return nil, br
+		}
+		res := AsResult(p, br)
+		v := CheckExactlyOnce(ref, res)
+		for i := range v {
+			v[i] = normText(v[i])
+		}
+		return v, br
+	}
+	viol, br := run()
+	if br.Err != "" {
+		r.Inconclusive("cluster-mode run could not be started: " + br.Err)
+		return
+	}
+	defer br.Cleanup()
+	r.Eval("B|cluster-flaky-queue")
+	r.Add("tierb_runs", 1)
+	if len(viol) == 0 {
+		r.Outcome("tierb-cluster-flaky-queue-ok")
+		return
+	}
+	v2, br2 := run()
+	br2.Cleanup()
+	if strings.Join(v2, "\n") != strings.Join(viol, "\n") {
+		r.Inconclusive("cluster mode with a flaky queue listing: non-reproducible: " + viol[0])
+		return
+	}
+	r.Outcome("tierb-violation")
+	for _, v := range viol {
+		r.Report(ev.Finding{Sig: sigFor("C03", v) + ":cluster", What: "real mrp in cluster mode (fake_remote, --autoretry=1), the queue listing cut short twice while a job runs for 9 s: " + v,
+			Case: BCase{Tier: "B-cluster-flaky-queue", Shape: DfCase{Family: "dataflow", Params: progen.DataflowParams{Kind: "int", Src: "gen", Size: 2, Cons: "add"}}}})
+	}
 }
 
 func slowNote(m map[string]int) string {
